@@ -3,7 +3,8 @@ from .common import *
 from .geomgen import *
 
 ID = "C06"
-PROPS_FILES = ["Props/C06"]
+PROPS_FILES = ["Props/C06", "Props/FixedPoint"]
+FRAGMENTS = ["fixed-point"]
 TRUSTED = [
     "Coq 8.16.1 kernel; Flocq (f32 -> FDot6 / FDot16 conversions)",
     "hand-written bit-exact Model/Hairline.v (the integer DDA of hair_line_rgn with its guards) tied by bit-exact blit correspondence for polylines inside the clip (recording-blitter hook)",
